@@ -329,7 +329,7 @@ Theorem add_chunk_follows_plan a x w rc text hdr hsz arr cap chunks rcx nx :
   heap w a = Some (CItem rc (NChunked text hdr arr cap chunks)) ->
   heap w hdr = Some (CData hsz) ->
   block_inv w arr cap -> arr <> Some hdr ->
-  heap w x = Some (CItem rcx nx) ->
+  heap w x = Some (CItem rcx nx) -> chunk_ok text nx ->
   a <> x ->
   cap < 2 ^ 64 -> len chunks <= cap ->
   let p := add_chunk_plan (len chunks) cap (grow_ok (nreq w) SZ_PTR cap) in
@@ -342,8 +342,8 @@ Theorem add_chunk_follows_plan a x w rc text hdr hsz arr cap chunks rcx nx :
     trace w' = req_events arr (if ret_bool p then Some (next w) else None) (p_reqs p) ++ trace w /\
     (ret_bool p = false -> same_heap w w').
 Proof.
-  intros Hwf Ha Hh Hb Hah Hx Hax H64 Hle p chunks'. subst chunks' p. unfold add_chunk_plan.
-  destruct (add_chunk_spec refuse a x w rc text hdr hsz arr cap chunks rcx nx Hwf Ha Hh Hb Hah Hx Hax H64)
+  intros Hwf Ha Hh Hb Hah Hx Hk Hax H64 Hle p chunks'. subst chunks' p. unfold add_chunk_plan.
+  destruct (add_chunk_spec refuse a x w rc text hdr hsz arr cap chunks rcx nx Hwf Ha Hh Hb Hah Hx Hk Hax H64)
     as [Hroom Hfull].
   destruct (N.eqb_spec (len chunks) cap) as [E|NE].
   2:{ rewrite append_room. cbn [ret_bool p_ret Z.eqb negb p_reqs].
